@@ -335,6 +335,15 @@ def run(chk):
     from . import c06
     c06.check_shared_descriptor(chk, emit.translator_tus(('c.c', 'opcode.c', 'instruction.c'), chk=chk), 'R18.4')
     chk.floor('R18.4', 3)
+    # R18.7: the grow the runtime serialises is the grow the module asked for: the memory.grow / memory.size templates hand the full
+    # 32-bit operand to wasmMemoryGrow and take its result (a delta narrowed on the way turns a grow that must fail into one that
+    # succeeds with another delta); template rule shared with C05 R05.4
+    from . import c01 as _c01, c05 as _c05
+    _tus = emit.translator_tus(('c.c', 'opcode.c', 'instruction.c'), chk=chk)
+    _it = emit.make_interp(_tus)
+    _tabs = _c01.read_type_tables(chk, _tus[0], _it, _c01.value_types(_it), 'R18.7')
+    _c05.check_bulk(chk, _it, _tabs, [(0, 0), (1, 0)], rule='R18.7', only=('memory.grow', 'memory.size'))
+    chk.floor('R18.7', 4)
     # a memory declared shared is marked shared and gets its mutex, whatever its limits (min == max included): the grow/size
     # paths lock only when the flag says so (allocator rule shared with C06 R06.7)
     c06.check_allocators(chk, rule='R18.5', only_shared_clause=True)
